@@ -121,7 +121,7 @@ func runPO(p *model.Prog, r *report.Result, cfg poConfig) (*po.Engine, int) {
 					if cfg.filter != nil && !cfg.filter(f.Fn) && !(cfg.filter(ob.Fn) && !model.IsNaza(ob.Fn)) {
 						continue
 					}
-					r.Bad(cfg.rule, key+"@"+model.FnName(f.Fn), pos, f.Proof+" [fails at "+p.InstrPos(f.At)+"] via "+model.PathTo(reach, ob.Fn))
+					r.BadReq(cfg.rule, key+"@"+model.FnName(f.Fn), pos, f.Proof+" [fails at "+p.InstrPos(f.At)+"] via "+model.PathTo(reach, ob.Fn), model.FnName(f.Fn)+"#"+p.InstrPos(f.At), f.Form, f.K)
 				}
 				break
 			}
